@@ -135,10 +135,15 @@ def match(tree, actual):
         if not isinstance(actual, str):
             return False
         want = render(tree)
-        if actual == want:
-            return True
-        # ndjson.md shows datetimes with a trailing "Z" in its example and without in the format description
-        return j == "datetime" and actual == want + "Z"
+        # ndjson.md gives the fraction as "FFFFFFFFF" (optional digits): trailing zeros, or a zero fraction altogether,
+        # may be dropped; its datetime example carries a trailing "Z" that the format description lacks.
+        def norm(x):
+            if j == "datetime" and x.endswith("Z"):
+                x = x[:-1]
+            if j in ("time", "datetime") and "." in x:
+                x = x.rstrip("0").rstrip(".")
+            return x
+        return norm(actual) == norm(want)
     if j == "bool":
         return isinstance(actual, bool) and actual == tree["b"]
     if j == "null":
